@@ -1,6 +1,7 @@
 import CalicoVerif.Util.Proto
 import CalicoVerif.Model.C45
 /-! Driver for C45: ops (keys / hashed byte strings are `x<hex>` tokens, values are tokens)
+  `cfg <hasher spec>`            -> `ok`                      (harness-side configuration, ignored by the model)
   `new <replicas> <probes>`      -> `ok` | `panic`            (also clears the hash table)
   `h <xbytes> <uint64>`          -> `ok`                      (one point of the byte-slice hasher)
   `ins <xkey> <value>`           -> `ok` | `nohash`
@@ -60,6 +61,7 @@ def step (s : St) (line : String) : St × String :=
       | some ring => ({ ring := some ring, table := [] }, "ok")
       | none => ({ ring := none, table := [] }, "panic")
     | _, _ => (s, "bad-op")
+  | ["cfg", _] => (s, "ok")
   | ["h", a, b] =>
     match parseX a, b.toNat? with
     | some bytes, some v => ({ s with table := (bytes, v) :: s.table }, "ok")
